@@ -15,6 +15,11 @@ CLAIMS = {
     text='TLC enumerates all name/path component sequences over {.., ., empty, a, b, absolute-root} up to a length bound for single- and multi-file layouts, proves on the model that clean paths never leave the allowed area at any step and end at Loc, and classifies hostile ones; the real extractor is run for each case in run/ inside a canary directory and the whole canary tree is listed afterwards: any entry outside the allowed area is a violation, clean cases must be at Loc with the right bytes.',
     note='Trusted: TLC, the recursive directory listing of the harness. Absolute paths only point into the scratch canary tree. No symlinks.',
     ref='DESIGN.md 6/C04, 5.6'),
+ 'C05': dict(
+    technique='TLA+ document model (MetainfoDoc.tla over DocModel/BencodeValues) enumerated by TLC with the exact byte span of the top-level info value; replayed into Metainfo::from_bencode; spans of mutated torrents recomputed by TLC (BencodeTrace.tla)',
+    text='TLC assembles documents from per-field variant menus in three entry orders (extra keys before/after info incl. nested dictionaries containing a key spelled info, leading-zero lengths, binary strings, trailing data), serialises them exactly and records the span of the top-level info value (invariant SpanInv); for every document rdest accepts, info_hash() must be the SHA-1 of that span. Mutated real-shaped torrents are parsed by rdest and their span recomputed byte by byte by TLC running the bencode automaton.',
+    note='Trusted: TLC, SHA-1 (uninterpreted in TLA+; hashlib), the symbol/byte mapping. Documents with duplicate top-level keys are not generated.',
+    ref='DESIGN.md 6/C05, 5.5'),
  'C06': dict(
     technique='TLA+ byte-level stream decoder model (FrameStream.tla over Wire.tla) checked by TLC; every reachable transition replayed into the real Connection under a paused clock; all splittings of short streams',
     text='TLC checks on the model that decoding is segmentation independent, leaves nothing decodable pending, is bounded and dies on malformed input, for every stream of menu items (valid messages, unknown ids, wrong length prefixes, oversize, bad handshakes, garbage) and every explored read boundary incl. EOF; each reachable state (stream x previous cut x cut) is then one transition test of the real Connection::recv_frame whose delivered messages, termination and buffered byte count must equal the spec state.',
@@ -35,6 +40,16 @@ CLAIMS = {
     text='TLC enumerates every input over a delimiter-rich 10-symbol alphabet up to a length bound as the reachable states of an explicit pushdown recogniser; each state carries the verdict the property demands and is replayed through the real BDecoder (bounded-exhaustive model-based testing against the TLA+ reference). In the other direction decoder runs on mutated real-shaped documents are recorded and validated by TLC over the full byte alphabet.',
     note='Trusted: TLC, the TLA+ transcription of bencode well-formedness (checked against its own canonical encoder by the invariant ReEncodeInv), the harness JSON encoding of values. Integers outside i64 are not enumerated.',
     ref='DESIGN.md 6/C16, 5.4'),
+ 'C17': dict(
+    technique='TLA+ document model (MetainfoDoc.tla) with the reading of the top-level dictionary computed by TLC; replayed into Metainfo::from_bencode and every accessor; create_file chunking expectations from Geometry.tla',
+    text='TLC enumerates documents where up to 2 (thorough: 3) fields deviate from valid (absent / wrong type / negative / 0 / huge, bad file entries, both or neither of length/files, extra keys, three entry orders) and computes what the top-level dictionary says; an accepted document must yield exactly that reading and all accessors must return for every piece index; mutated and random bytes must not panic; create_file output must parse back to name, length and the SHA-1 of each 256 KiB chunk (chunk lengths from Geometry.tla).',
+    note='Trusted: TLC, hashlib SHA-1, the hook accessor Metainfo::verif_fields. Whether unusual well-typed documents are accepted is not asserted.',
+    ref='DESIGN.md 6/C17, 5.5'),
+ 'C18': dict(
+    technique='TLA+ form-urlencoding and request model (Announce.tla) checked by TLC (Decode(Encode(h)) = h); every case replayed through the real TrackerClient::run + reqwest against a loopback HTTP listener',
+    text='TLC enumerates hash vectors over byte classes (every class at first/middle/last position, all-same, alternating with %) x announce-URL shapes (with/without query, percent-encoded parameter, trailing ?) x total lengths and checks serialisation round trip and URL safety on the model; the real tracker client sends each request over loopback TCP, the captured request line is percent-decoded by the harness and compared with the abstract request (path, own parameters kept, exactly one info_hash = the 20 bytes, peer_id, port, left). All 256 byte values are covered at three positions in the thorough tier.',
+    note='Trusted: TLC, loopback TCP, the harness percent-decoder, hook Metainfo::verif_set_info_hash to choose the hash.',
+    ref='DESIGN.md 6/C18, 5.7'),
 }
 hooks = subprocess.check_output(['git', '-C', '/repo', 'log', '--format=%h %s', 'e8e0820..HEAD'], text=True).strip().split('\n')
 hook_commits = [l.split()[0] for l in hooks if ' verif hooks:' in ' ' + l]
